@@ -389,3 +389,67 @@ PROPS["C18"] = {
                     "exhaustive exploration is on the miniature curve",
                     "Schnorr key objects, signing and hash-to-curve are not part of the pool model (covered functionally by C13-C15)"],
 }
+
+
+def _same_traces(work, files, drv, env):
+    """C19: the arithmetic harnesses run under -tags verif and -tags verif,purego with the same seed must log identical traces"""
+    import hashlib as _h
+    key = drv["pair_key"]
+    st = env["extra_cov"].setdefault("_pair", {})
+    digest = _h.sha256()
+    n = 0
+    for f in files:
+        for line in open(f):
+            digest.update(line.replace('"build":"purego"', '"build":"asm"').encode())
+            n += 1
+    st.setdefault(key, []).append((tuple(drv.get("tags", ())), digest.hexdigest(), n))
+    out = {}
+    if len(st[key]) == 2:
+        a, b = st[key]
+        same = a[1] == b[1]
+        out["config_pairs"] = env["extra_cov"].get("config_pairs", []) + [{"driver": drv["driver"], "lines": a[2], "identical": same}]
+        if not same:
+            env["violations"].append({"driver": drv["driver"], "trace": "cross-configuration comparison",
+                                      "line": "trace of driver %s under %s differs from the trace under %s (same seed)" % (drv["driver"], a[0], b[0])})
+    return out
+
+
+_PG = ("verif", "purego")
+PROPS["C19"] = {
+    "title": "assembly and pure-Go builds are observationally identical",
+    "level": "model_checking",
+    "level_text": "Trace_Lookup.tla states the contract of the two constant-time table lookups (entry idx bit for bit, identity for index 0, only coordinate bytes "
+                  "written, and an access pattern that is a function of the routine and the table placement only). A renamed copy of the CURRENT portable lookup is "
+                  "generated into the build so that both implementations live in one binary; the driver runs all 16 indices on random limbs, all-ones, zeros and "
+                  "all-ones / single-bit patterns in each of the 15 slots x 12 (8) limb positions, in BOTH build configurations, and TLC checks every output against "
+                  "the selected entry and against the reference; a page-fault oracle observes which entries are touched. The arithmetic harnesses of C03/C04/C05/C16 "
+                  "and slices of the others are executed under -tags verif and -tags verif,purego with the same seed: the traces must be identical line by line and "
+                  "each is validated against the specification. LookupAsm.tla is an instruction-level model GENERATED from point_mul_table_amd64.s and model-checked.",
+    "level_note": "trusted: TLC, the generated reference copy (text of point_mul_table_ref.go), raw-memory accessors, SetPanicOnFault-based fault observation",
+    "exhaustive": [],
+    "drivers": [
+        {"driver": "lookup", "trace": "Trace_Lookup", "shards": 4},
+        {"driver": "lookup", "trace": "Trace_Lookup", "shards": 4, "tags": _PG},
+        {"driver": "point", "trace": "Trace_Point", "post": _same_traces, "pair_key": "point"},
+        {"driver": "point", "trace": "Trace_Point", "tags": _PG, "post": _same_traces, "pair_key": "point"},
+        {"driver": "mul", "trace": "Trace_Point", "post": _same_traces, "pair_key": "mul"},
+        {"driver": "mul", "trace": "Trace_Point", "tags": _PG, "post": _same_traces, "pair_key": "mul"},
+        {"driver": "basemul", "trace": "Trace_Point", "post": _same_traces, "pair_key": "basemul"},
+        {"driver": "basemul", "trace": "Trace_Point", "tags": _PG, "post": _same_traces, "pair_key": "basemul"},
+        {"driver": "msm", "trace": "Trace_Point", "post": _same_traces, "pair_key": "msm"},
+        {"driver": "msm", "trace": "Trace_Point", "tags": _PG, "post": _same_traces, "pair_key": "msm"},
+        {"driver": "sign", "trace": "Trace_Ecdsa", "tags": _PG, "post": _same_traces, "pair_key": "sign"},
+        {"driver": "sign", "post": _same_traces, "pair_key": "sign"},
+        {"driver": "schnorr", "trace": "Trace_Schnorr", "tags": _PG, "post": _same_traces, "pair_key": "schnorr"},
+        {"driver": "schnorr", "post": _same_traces, "pair_key": "schnorr"},
+        {"driver": "keys", "trace": "Trace_Ecdsa", "tags": _PG, "post": _same_traces, "pair_key": "keys"},
+        {"driver": "keys", "post": _same_traces, "pair_key": "keys"},
+        {"driver": "h2c", "trace": "Trace_H2C", "tags": _PG, "post": _same_traces, "pair_key": "h2c"},
+        {"driver": "h2c", "post": _same_traces, "pair_key": "h2c"},
+    ],
+    "require_classes": {"quick": ["proj_idx0", "proj_idx", "aff_idx0", "aff_idx", "pat_random", "pat_limb_ones", "pat_limb_bit", "pat_ones", "pat_zeros",
+                                  "touch_ct", "touch_all_readable", "touch_vartime_differs", "layout", "build_asm", "build_purego",
+                                  "tbl_huge", "bm_single_byte", "mul_alias", "msm_alias", "add_p_negp"]},
+    "assumptions": ["indices >= 16 are outside the lookups' contract (callers pass a 4-bit window); they are not asserted",
+                    "the cross-configuration comparison covers the seeded inputs of the listed harnesses, not all inputs"],
+}
